@@ -576,3 +576,67 @@ Proof.
   - split; [intros [i H]; discriminate|]. intros [H1 H2].
     apply andb_false_iff in E. destruct E as [E|E]; apply Z.leb_gt in E; lia.
 Qed.
+
+(* ------------------------------------------------------------------ the aggregate predicates are the literal walk
+   get_columns_and_aggregates (two accumulators, nothing below an aggregate node is visited): has_col / has_agg say
+   whether its two result lists are non-empty; is_aggregate(node) = bool(aggregates) = has_agg *)
+Section CnodeInd.
+  Variable P : cnode -> Prop.
+  Hypothesis HConst : forall v dt, P (NConst v dt).
+  Hypothesis HCol : forall c dt, P (NCol c dt).
+  Hypothesis HOp : forall op i args dt, Forall P args -> P (NOp op i args dt).
+  Hypothesis HAnd : forall args, Forall P args -> P (NAnd args).
+  Hypothesis HOr : forall args, Forall P args -> P (NOr args).
+  Hypothesis HCoal : forall args dt, Forall P args -> P (NCoalesce args dt).
+  Hypothesis HFunc : forall f i args dt agg, Forall P args -> P (NFunc f i args dt agg).
+  Hypothesis HGetItem : forall e k, P e -> P (NGetItem e k).
+  Hypothesis HGetter : forall e a dt, P e -> P (NGetter e a dt).
+  Hypothesis HSub : P NSub1D.
+
+  Fixpoint cnode_ind' (n : cnode) : P n :=
+    let many := fix many (l : list cnode) : Forall P l :=
+                  match l with
+                  | [] => Forall_nil P
+                  | x :: t => Forall_cons x (cnode_ind' x) (many t)
+                  end in
+    match n with
+    | NConst v dt => HConst v dt
+    | NCol c dt => HCol c dt
+    | NOp op i args dt => HOp op i args dt (many args)
+    | NAnd args => HAnd args (many args)
+    | NOr args => HOr args (many args)
+    | NCoalesce args dt => HCoal args dt (many args)
+    | NFunc f i args dt agg => HFunc f i args dt agg (many args)
+    | NGetItem e k => HGetItem e k (cnode_ind' e)
+    | NGetter e a dt => HGetter e a dt (cnode_ind' e)
+    | NSub1D => HSub
+    end.
+End CnodeInd.
+
+Definition nonempty {A} (l : list A) : bool := match l with [] => false | _ => true end.
+
+Lemma nonempty_app : forall {A} (a b : list A), nonempty (a ++ b) = nonempty a || nonempty b.
+Proof. intros A [|x a] b; simpl; auto. Qed.
+
+Definition walk_many := fix many (l : list cnode) : list cnode * list cnode :=
+  match l with
+  | [] => ([], [])
+  | x :: t => let (c, a) := cols_aggs x in let (c', a') := many t in (c ++ c', a ++ a')
+  end.
+
+Lemma walk_many_spec : forall args,
+  Forall (fun n => has_col n = nonempty (fst (cols_aggs n)) /\ has_agg n = nonempty (snd (cols_aggs n))) args ->
+  existsb has_col args = nonempty (fst (walk_many args)) /\ existsb has_agg args = nonempty (snd (walk_many args)).
+Proof.
+  induction 1 as [|x t [Hc Ha] _ [IHc IHa]]; simpl; auto.
+  destruct (cols_aggs x) as [c a]. destruct (walk_many t) as [c' a']. simpl in *.
+  rewrite !nonempty_app, Hc, Ha, IHc, IHa. auto.
+Qed.
+
+Theorem predicates_are_the_walk : forall n,
+  has_col n = nonempty (fst (cols_aggs n)) /\ has_agg n = nonempty (snd (cols_aggs n)).
+Proof.
+  induction n using cnode_ind'; simpl; auto;
+    try (apply walk_many_spec; assumption).
+  destruct agg; simpl; auto. apply walk_many_spec; assumption.
+Qed.
